@@ -203,6 +203,10 @@ def hier_program(ids: Ids, rng, shape: List[List[int]], kind: str, is_async: boo
 
     # (now and then a short public name that happens to be part of the names of the special methods)
     base = rng.choice(("init", "new", "n", "it", "e", "w", "i", "t")) if rng.random() < 0.08 else ids.new("m")
+    if rng.random() < 0.08:
+        # a protected member (template-method hook): overridden - and its contracts inherited - like any other; only the invariants
+        # are not evaluated around it
+        base = "_" + ids.new("m")
     classes = []  # type: List[Dict[str, Any]]
     names = []  # type: List[str]
     root_style = rng.choice(("dbc", "dbc", "metaclass", "mixin-metaclass"))
